@@ -91,6 +91,7 @@ type regOp struct {
 
 func runRegistry(withStops bool) func(rc *core.RunCtx) {
 	return func(rc *core.RunCtx) {
+		const own = "C10"
 		setKnobs(rc)
 		g := simrt.G()
 		env := NewEnv(rc)
@@ -208,7 +209,7 @@ func runRegistry(withStops bool) func(rc *core.RunCtx) {
 						simrt.Ev("getpid t%d %s -> %v", t, o.id, p != nil)
 						hist = append(hist, porcupine.Operation{ClientId: t, Input: regIn{rGetPID, o.id}, Call: call, Output: regOut{Present: p != nil}, Return: seq})
 						if p != nil && (p.ID != o.id || p.Address != "local") {
-							rc.Violate("getpid-wrong-pid", "GetPID(%s) returned %s", o.id, pidStr(p))
+							rc.Violate2(own, "getpid-wrong-pid", "GetPID(%s) returned %s", o.id, pidStr(p))
 						}
 					case rSend:
 						env.Send(fmt.Sprintf("t%d", t), o.id, o.msg, nil)
@@ -223,7 +224,7 @@ func runRegistry(withStops bool) func(rc *core.RunCtx) {
 			if withStops {
 				feat = "with-stops"
 			}
-			rc.Violate("operation-never-returned/"+feat, "%d of %d tasks finished; blocked: %v", finished, ntasks, simrt.BlockedTasks())
+			rc.Violate2(own, "operation-never-returned/"+feat, "%d of %d tasks finished; blocked: %v", finished, ntasks, simrt.BlockedTasks())
 			return
 		}
 		switch porcupine.CheckOperationsTimeout(regModel, hist, 10*time.Second) {
@@ -236,7 +237,7 @@ func runRegistry(withStops bool) func(rc *core.RunCtx) {
 			if withStops {
 				feat = "with-stops"
 			}
-			rc.Violate("registry-not-linearizable/"+feat, "no linearization against the set-of-registered-ids model: %s", sb.String())
+			rc.Violate2(own, "registry-not-linearizable/"+feat, "no linearization against the set-of-registered-ids model: %s", sb.String())
 		case porcupine.Unknown:
 			rc.Inconclusive("porcupine timeout on %d ops", len(hist))
 		}
@@ -247,7 +248,7 @@ func runRegistry(withStops bool) func(rc *core.RunCtx) {
 				prod += in.Produced
 			}
 			if prod != winning[id] {
-				rc.Violate("producer-calls", "%s: Producer ran %d times, %d spawns won", id, prod, winning[id])
+				rc.Violate2(own, "producer-calls", "%s: Producer ran %d times, %d spawns won", id, prod, winning[id])
 			}
 			dup := 0
 			for _, e := range mon.Events {
@@ -256,7 +257,7 @@ func runRegistry(withStops bool) func(rc *core.RunCtx) {
 				}
 			}
 			if dup != losing[id] {
-				rc.Violate("duplicate-id-event-count", "%s: %d ActorDuplicateIdEvents, %d losing spawns", id, dup, losing[id])
+				rc.Violate2(own, "duplicate-id-event-count", "%s: %d ActorDuplicateIdEvents, %d losing spawns", id, dup, losing[id])
 				rc.Violate2("C12", "lifecycle-event-missing/duplicate-id", "%s: %d ActorDuplicateIdEvents, %d losing spawns", id, dup, losing[id])
 			}
 			// at most one live actor: instances must not overlap in time
@@ -276,10 +277,15 @@ func runRegistry(withStops bool) func(rc *core.RunCtx) {
 					}
 				}
 				if !stopped {
-					rc.Violate("two-live-actors", "%s: a second actor was started under the id before the first one got Stopped", id)
+					rc.Violate2(own, "two-live-actors", "%s: a second actor was started under the id before the first one got Stopped", id)
 				}
 			}
 			if !withStops {
+				// without stops the id is taken from the first spawn on: every further
+				// spawn is a duplicate-id occurrence and must have its event
+				if total := winning[id] + losing[id]; total > 0 && dup != total-1 {
+					rc.Violate2("C12", "lifecycle-event-missing/duplicate-id", "%s: %d spawns of one id without any stop, %d ActorDuplicateIdEvents (want %d)", id, total, dup, total-1)
+				}
 				// the incumbent and its pending messages are untouched by duplicate spawns
 				dead := map[int]int{}
 				for _, dl := range mon.DeadLetters() {
@@ -292,7 +298,7 @@ func runRegistry(withStops bool) func(rc *core.RunCtx) {
 				for _, d := range env.userDeliveries(id) {
 					got[d.Msg.ID]++
 					if p, ok := last[d.Msg.Src]; ok && d.Msg.N < p {
-						rc.Violate("incumbent-order-disturbed", "%s: %s delivered out of order", id, d.Msg)
+						rc.Violate2(own, "incumbent-order-disturbed", "%s: %s delivered out of order", id, d.Msg)
 					}
 					last[d.Msg.Src] = d.Msg.N
 				}
@@ -300,13 +306,13 @@ func runRegistry(withStops bool) func(rc *core.RunCtx) {
 					for _, o := range sc {
 						if o.op == rSend && o.id == id {
 							if got[o.msg.ID]+dead[o.msg.ID] != 1 {
-								rc.Violate("incumbent-message-disturbed", "%s: %s delivered %d times, dead-lettered %d times", id, o.msg, got[o.msg.ID], dead[o.msg.ID])
+								rc.Violate2(own, "incumbent-message-disturbed", "%s: %s delivered %d times, dead-lettered %d times", id, o.msg, got[o.msg.ID], dead[o.msg.ID])
 							}
 						}
 					}
 				}
 				if len(insts) > 1 {
-					rc.Violate("producer-calls", "%s: %d process instances without any stop", id, len(insts))
+					rc.Violate2(own, "producer-calls", "%s: %d process instances without any stop", id, len(insts))
 				}
 			}
 		}
@@ -318,6 +324,8 @@ func init() {
 	base := "one real Engine; 2-4 tasks doing Spawn / stop-and-wait / GetPID / Send over a pool of 1-3 ids; each operation stamped call/return with a global event counter; "
 	core.Register(&core.Profile{Property: "C10", Name: "registry", Weight: 3, Cfg: cfgEngine, Run: runRegistry(true),
 		Doc: base + "oracle: porcupine linearizability against 'set of registered ids' (Spawn wins iff absent, StopAndWait removes, GetPID reads), Producer runs once per winning spawn and never for a loser, one ActorDuplicateIdEvent per losing spawn, successive actors under one id never overlap"})
+	core.Register(&core.Profile{Property: "C12", Name: "duplicate-id-events", Weight: 2, Cfg: cfgEngine, Run: runRegistry(false),
+		Doc: base + "oracle for C12: exactly one ActorDuplicateIdEvent per losing spawn, however the spawns race"})
 	core.Register(&core.Profile{Property: "C10", Name: "duplicates", Weight: 2, Cfg: cfgEngine, Run: runRegistry(false),
 		Doc: base + "stop-free: in addition every message sent to the incumbent is delivered exactly once in order (or dead-lettered before the first spawn) however many duplicate spawns race with it"})
 }
